@@ -12,11 +12,11 @@ CTYPE = {
     'double': 'double', 'cptr': 'const int*', 'E8': 'vf::E8', 'E32': 'vf::E32', 'B3': 'vf::B3', 'B5': 'vf::B5',
     'B12': 'vf::B12', 'B24': 'vf::B24', 'Tracked': 'vf::Tracked', 'TrackedMO': 'vf::TrackedMO',
     'string': 'std::string', 'uptr': 'std::unique_ptr<int>', 'SelfRef': 'vf::SelfRef', 'Handle': 'vf::Handle',
-    'Stamped': 'vf::Stamped',
+    'Stamped': 'vf::Stamped', 'Cloned': 'vf::Cloned',
 }
 SIZEOF = {'u8': 1, 'i8': 1, 'char': 1, 'byte': 1, 'bool': 1, 'u16': 2, 'u32': 4, 'i32': 4, 'u64': 8, 'sz': 8,
           'float': 4, 'double': 8, 'cptr': 8, 'E8': 1, 'E32': 4, 'B3': 3, 'B5': 5, 'B12': 12, 'B24': 24,
-          'Tracked': 16, 'TrackedMO': 16, 'string': 32, 'uptr': 8, 'SelfRef': 16, 'Handle': 8, 'Stamped': 8}
+          'Tracked': 16, 'TrackedMO': 16, 'string': 32, 'uptr': 8, 'SelfRef': 16, 'Handle': 8, 'Stamped': 8, 'Cloned': 8}
 TRIVIAL = {'u8', 'i8', 'char', 'byte', 'bool', 'u16', 'u32', 'i32', 'u64', 'sz', 'float', 'double', 'cptr', 'E8',
            'E32', 'B3', 'B5', 'B12', 'B24', 'Handle'}
 MOVE_ONLY = {'TrackedMO', 'uptr', 'Handle'}
@@ -181,6 +181,10 @@ def core_pool():
     c.append(make([p('i32'), p('Stamped'), f('Stamped')], tags={'nontrivial', 'stamped'}))
     c.append(make([f('Stamped'), p('u32'), p('Stamped'), p('u8')], tags={'nontrivial', 'stamped'}))
     c.append(make([p('Stamped', 8), p('u8'), v('u16'), f('Stamped')], tags={'nontrivial', 'stamped', 'layout', 'alignedfirst'}))
+    # user-provided copy constructor, trivial move constructor and destructor
+    c.append(make([p('Cloned'), p('u8')], tags={'nontrivial', 'cloned', 'plain'}))
+    c.append(make([f('Cloned'), p('u32'), f('u8')], tags={'nontrivial', 'cloned'}))
+    c.append(make([p('u8'), v('Cloned'), p('Cloned', 8)], tags={'nontrivial', 'cloned', 'lowalign', 'layout'}))
     c.append(make([f('bool'), p('i32')], tags={'memcmp', 'lowalign'}))
     c.append(make([f('bool'), p('float'), p('u8'), v('bool')], tags={'memcmp', 'lowalign'}))
     # runs of byte-comparable fields around FixedSize / VaryingSize spans (what the comparison fast paths coalesce)
@@ -246,7 +250,7 @@ def allocator_pool():
 # ---------------------------------------------------------------------------------------------------------------
 TRIV_POOL = ['u8', 'i8', 'char', 'byte', 'bool', 'u16', 'u32', 'i32', 'u64', 'float', 'double', 'cptr', 'E8', 'E32',
              'B3', 'B5', 'B12', 'B24', 'Handle']
-NONTRIV_POOL = ['Tracked', 'Tracked', 'TrackedMO', 'string', 'uptr', 'SelfRef', 'Stamped']
+NONTRIV_POOL = ['Tracked', 'Tracked', 'TrackedMO', 'string', 'uptr', 'SelfRef', 'Stamped', 'Cloned']
 ALIGNS = [2, 4, 8, 16, 32, 64]
 
 
